@@ -174,8 +174,12 @@ def run(rep):
         rep.check(okb, 'C04.R2.entry-binding', 'entry-binding', where,
                   f'`binding:` of the bind group entry is {E.show(b[2], maxdepth=6) if b else None}; expected this binding\'s binding_index (sparse / unordered @binding indices would be misnumbered)',
                   ok_detail='binding = binding.binding_index')
-        if r is not None and r[0] == 'hole':
-            scr = collect_scrutinees(r[2]).get('TypeInner', [])
+        if True:
+            # the type that decides the resource kind: wherever in the entry template it is consulted (directly in the hole after `resource:`, or in a
+            # hole further inside - `wgpu::BindingResource::#kind(bindings.#field)`)
+            scr = collect_scrutinees(r[2]).get('TypeInner', []) if r is not None and r[0] == 'hole' else []
+            if not scr:
+                scr = collect_scrutinees(et).get('TypeInner', [])
             if len(scr) == 1 and scr[0] == ('f', ('f', be, TYPE_F), 'inner'):
                 # the whole entry is instantiated for each kind of resource type (holes that depend on the binding stay symbolic) and read as text, so
                 # it does not matter which template holds the `(bindings.<field>)` part
@@ -306,7 +310,11 @@ def run(rep):
         n7 += 1
         pt = pl[0]
         ptxt = E.tmpl_text(pt)
-        rep.check('bind_group_layouts : & [ #( & #' in ptxt, 'C04.R7.pipeline-layout', f'layout-list:{tq}', twhere, f'bind_group_layouts is not a repetition of references ({ptxt[:120]})', ok_detail='&[#(&#layouts),*]')
+        # `&[#(&#layouts),*]` with elements `bind_groups::..::get_bind_group_layout(device)`, or `&[#(#layouts),*]` with elements that carry the `&` themselves
+        amp_outer = 'bind_group_layouts : & [ #( & #' in ptxt
+        amp_inner = 'bind_group_layouts : & [ #( #' in ptxt
+        rep.check(amp_outer or amp_inner, 'C04.R7.pipeline-layout', f'layout-list:{tq}', twhere,
+                  f'bind_group_layouts is not a repetition of references ({ptxt[max(0, ptxt.find("bind_group_layouts")):][:120]})', ok_detail='&[#(&#layouts),*]')
         ss = []
         E.walk(pt, lambda x: ss.append(x) if x[0] == 'star' and E.find_templates(x[3], lambda t: ':: get_bind_group_layout ( device )' in E.tmpl_text(t)) else None)
         if len(ss) != 1:
@@ -324,7 +332,8 @@ def run(rep):
         k = ('elem', s[2], s[1])
         t = E.find_templates(s[3], lambda t: True)[0]
         hv = [ident_fmt(x) for x in E.holes(t).values()]
-        rep.check(hv == [('BindGroup', k)] and E.tmpl_text(t) == 'bind_groups :: #' + list(E.holes(t))[0] + ' :: get_bind_group_layout ( device )', 'C04.R7.pipeline-layout', f'layout-element:{tq}', twhere,
+        want_el = ('' if amp_outer else '& ') + 'bind_groups :: #' + list(E.holes(t))[0] + ' :: get_bind_group_layout ( device )'
+        rep.check(hv == [('BindGroup', k)] and E.tmpl_text(t) == want_el, 'C04.R7.pipeline-layout', f'layout-element:{tq}', twhere,
                   f'layout element is `{E.tmpl_text(t)}` {hv}', ok_detail='bind_groups::BindGroup<K>::get_bind_group_layout(device)')
     rep.floor('pipeline layout template', n7, 1)
     rep.analysed = {'bind_group_function': q, 'top_level': tops}
